@@ -377,8 +377,24 @@ def r10_3(ctx):
                         out.bad(f"{mod}", f"imports nondeterminism source `{a.name}`", where=f"{ctx.model.paths[mod]}:{n.lineno}")
             if isinstance(n, ast.ImportFrom) and (n.module or "").split(".")[0] in NONDET_MODULES:
                 out.bad(f"{mod}", f"imports nondeterminism source `{n.module}`", where=f"{ctx.model.paths[mod]}:{n.lineno}")
+    from verifkit import setorder
     for q, fn in sorted(ctx.model.funcs.items()):
         inf = ctx.typer.of(fn)
+        for node, site in setorder.analyse(fn, inf).items():
+            types = [t for t in site.types if t != UNK] or [UNK]
+            if not site.sensitive:
+                out.ok(q, "set: its iteration order never reaches a sequence (only sorted / membership / set algebra)",
+                       where=fn.where(node))
+            elif all(hash_stable(t) for t in types):
+                out.ok(q, f"set: elements hash-stable ({types[0]})", where=fn.where(node))
+            elif types == [UNK]:
+                out.undecided(q, "a set whose element type is not inferred is turned into a sequence", where=fn.where(node),
+                              detail=f"order-sensitive use `{U(site.sensitive[0])[:60]}`")
+            else:
+                use = site.sensitive[0]
+                out.bad(q, "iteration order of a set with hash-unstable elements can reach a result: "
+                           f"element types {types} in {fn.qname}", where=fn.where(node),
+                        detail=f"order-sensitive use `{U(use)[:60]}` at line {getattr(use, 'lineno', '?')}")
         parents = {}
         for p in ast.walk(fn.node):
             for c in ast.iter_child_nodes(p):
@@ -393,13 +409,6 @@ def r10_3(ctx):
                 (out.ok if ok else out.bad)(q, "id() used only for identity membership / equality" if ok
                                             else "id() value flows into something other than an identity test",
                                             where=fn.where(n))
-            if _is_set_creation(n):
-                verdict, why = _set_use(fn, inf, n, parents)
-                if verdict:
-                    out.ok(q, "set: " + why, where=fn.where(n))
-                else:
-                    out.bad(q, "iteration order of a set with hash-unstable elements can reach a result: " + why,
-                            where=fn.where(n))
     return out
 
 
